@@ -173,6 +173,7 @@ func c18(r *simk.Run) *simk.Violation {
 			blocks = append(blocks, refBlock{bytes: blk.Bytes(), id: blk.ID(), root: root, results: blk.Output.ExecutionResults.Marshal(), txs: len(blk.Input.StatelessBlock.Txs)})
 		}
 		var sderr error
+		s.Settle() // background tasks reach their idle state under the scheduler before the teardown runs unscheduled
 		s.FreeRun(func() { sderr = ref.Snow.Shutdown(ctx) })
 		if err := sderr; err != nil {
 			fail("harness", "reference shutdown: %v", err)
@@ -434,6 +435,7 @@ func c18(r *simk.Run) *simk.Violation {
 			fail("final-root-differs", "after accepting the whole chain the root is %s (%v), reference %s", root, err, blocks[n-1].root)
 			return
 		}
+		s.Settle() // background tasks reach their idle state under the scheduler before the teardown runs unscheduled
 		s.FreeRun(func() { sderr = v2.Snow.Shutdown(ctx) })
 		if err := sderr; err != nil {
 			fail("shutdown-error", "%v", err)
